@@ -100,3 +100,65 @@ func sends[T any](ch chan T) int { return 0 }
 //@   ensures#immediate-wins{C19} old(a.immediateAckTriggered) ==> a.ackState == ackStateImmediate && sends(a.awakeWriteLoopCh) != old(sends(a.awakeWriteLoopCh))
 //@   ensures#delayed-otherwise{C19} !old(a.immediateAckTriggered) && old(a.delayedAckTriggered) ==> a.ackState == ackStateDelay
 //@   ensures#untouched{C19} !old(a.immediateAckTriggered) && !old(a.delayedAckTriggered) ==> a.ackState == old(a.ackState)
+
+// ---- C17 / C04: negotiation, framing as negotiated, stale handshake packets ----
+
+//@ func Association.updateInterleavingState
+//@   ensures#interleaving-iff-both{C17,C04} result == nil ==> a.useInterleaving == old(a.localInterleaving && a.peerInterleaving)
+//@   ensures#forward-tsn-variant-matches{C17,C04} result == nil ==>
+//@      a.useIForwardTSN == old(a.localInterleaving && a.peerInterleaving && a.peerIForwardTSN) &&
+//@      a.useForwardTSN == old(!(a.localInterleaving && a.peerInterleaving) && a.peerForwardTSN)
+
+//@ func Association.establish
+//@   ensures#established-with-negotiated-framing{C17,C04} result == nil ==> a.state == established &&
+//@      a.useInterleaving == old(a.localInterleaving && a.peerInterleaving)
+
+//@ func Association.handleData
+//@   at call receivePayloadQueue.canPush assert#kind-as-negotiated{C17} chunkPayload.isIData() == a.useInterleaving
+//@   ensures#wrong-kind-answered-with-abort{C17} old(a.canHandleData(a.state)) && old(chunkPayload.isIData() != a.useInterleaving) ==>
+//@      a.willSendAbort && result == nil
+
+//@ func Association.handleForwardTSN
+//@   ensures#wrong-kind-answered-with-abort{C17} old(a.useInterleaving) ==> a.willSendAbort && result == nil &&
+//@      a.payloadQueue.cumulativeTSN == old(a.payloadQueue.cumulativeTSN)
+//@   at call receivePayloadQueue.advanceCumulativeTSN assert#only-as-negotiated-and-forward{C17,C05,C07,C03}
+//@      !a.useInterleaving && a.useForwardTSN && arg1 == chunkTSN.newCumulativeTSN && arg1 != a.payloadQueue.cumulativeTSN && !specSerLT32(arg1, a.payloadQueue.cumulativeTSN)
+//@   at call Stream.handleForwardTSNForUnordered assert#purge-up-to-the-forwarded-tsn{C07} arg1 == chunkTSN.newCumulativeTSN
+//@   loop 1 complete{C07}
+//@   loop 2 complete{C07}
+
+//@ func Association.handleIForwardTSN
+//@   ensures#wrong-kind-answered-with-abort{C17} !old(a.useIForwardTSN) ==> a.willSendAbort && result == nil &&
+//@      a.payloadQueue.cumulativeTSN == old(a.payloadQueue.cumulativeTSN)
+//@   at call receivePayloadQueue.advanceCumulativeTSN assert#only-as-negotiated-and-forward{C17,C05,C07,C03}
+//@      a.useIForwardTSN && arg1 == chunkTSN.newCumulativeTSN && arg1 != a.payloadQueue.cumulativeTSN && !specSerLT32(arg1, a.payloadQueue.cumulativeTSN)
+//@   loop 1 complete{C07}
+
+//@ func Association.handleInit
+//@   at store Association.peerInterleaving@1 assert#peer-flags-reset-before-parsing{C17,C04} !stored
+//@   at store Association.peerForwardTSN@1 assert#peer-flags-reset-before-parsing2{C17,C04} !stored
+//@   at store Association.peerIForwardTSN@1 assert#peer-flags-reset-before-parsing3{C17,C04} !stored
+//@   at store Association.myCookie assert#cookie-generated-once{C04} a.myCookie == nil
+//@   ensures#ignored-once-established{C04} old(a.state) == established || old(a.state) == shutdownPending || old(a.state) == shutdownReceived || old(a.state) == shutdownSent ==>
+//@      result1 != nil && a.state == old(a.state) && a.peerVerificationTag == old(a.peerVerificationTag) && a.myNextTSN == old(a.myNextTSN) &&
+//@      a.payloadQueue.cumulativeTSN == old(a.payloadQueue.cumulativeTSN) && a.useInterleaving == old(a.useInterleaving) && a.sendZeroChecksum == old(a.sendZeroChecksum)
+
+//@ func Association.handleInitAck
+//@   ensures#ignored-outside-cookie-wait{C04} old(a.state) != cookieWait ==>
+//@      result == nil && a.state == old(a.state) && a.peerVerificationTag == old(a.peerVerificationTag) &&
+//@      a.payloadQueue.cumulativeTSN == old(a.payloadQueue.cumulativeTSN) && a.useInterleaving == old(a.useInterleaving) && a.sendZeroChecksum == old(a.sendZeroChecksum)
+
+//@ func Association.handleCookieAck
+//@   ensures#ignored-outside-cookie-echoed{C04} old(a.state) != cookieEchoed ==> a.state == old(a.state) && a.useInterleaving == old(a.useInterleaving)
+
+//@ func Association.handleCookieEcho
+//@   at call Association.establish assert#handshake-timers-stopped-first{C04} a.t1Init.state != rtxTimerStarted && a.t1Cookie.state != rtxTimerStarted &&
+//@      a.storedInit == nil && a.storedCookieEcho == nil
+//@   ensures#established-undisturbed{C04} old(a.state) == established ==> a.state == established && a.useInterleaving == old(a.useInterleaving) &&
+//@      a.payloadQueue.cumulativeTSN == old(a.payloadQueue.cumulativeTSN) && a.t1Init.state == old(a.t1Init.state)
+//@   ensures#ignored-in-shutdown-states{C04} old(a.state) != established && old(a.state) != closed && old(a.state) != cookieWait && old(a.state) != cookieEchoed ==>
+//@      result == nil && a.state == old(a.state)
+
+//@ func Association.initWithOutOfBandTokens
+//@   at call Association.setSendZeroChecksum assert#zero-checksum-from-the-peer-token{C04,C13} sameSlice(arg1, remoteInit.params)
+//@   at call Association.setPeerSupportedExtensions assert#extensions-from-the-peer-token{C04,C17} true
